@@ -6,6 +6,7 @@ package ua
 
 import (
 	"fmt"
+	"io"
 	"math"
 	"reflect"
 	"time"
@@ -141,6 +142,11 @@ func decodeSlice(b []byte, val reflect.Value, name string) (int, error) {
 		// fmt.Println("decode: []byte fast path")
 		val.SetBytes(buf.ReadN(int(n)))
 		return buf.Pos(), buf.Error()
+	}
+
+	// every element takes at least one byte of input
+	if int(n) > buf.Len() {
+		return buf.Pos(), io.ErrUnexpectedEOF
 	}
 
 	pos := buf.Pos()
